@@ -9,6 +9,10 @@ Case kinds
   cluster  BatchCluster.fit for every batch size vs one-shot:
            {"items":[[graph json, att]],"pre":k,"sizes":[0=None,1,..]}
   runtime  worker counts (modelled, not verified): {"what": "batch_jobs"|"validate"|"balance"|"syncrn", ...}
+  crn      SynCRN.build serial vs parallel (max_workers 1, 2, 3) on the FULL event records (step, rule index, rule name,
+           rule content, application index, reactant and product nodes, node ids), rule lists in which some rules cannot
+           produce a task (arity > max_components) or match nothing, placed before rules that fire; see gen/c14_crn.py.
+           The serial run's task/result table is replayed through the Gallina model of build (coq/model/C14_CrnModel.v).
 
 Correspondence for hist/batch: the implementation run records the OBSERVED event trace (allocation addresses as
 seen by `id()` inside batch_reactor, apply calls, reference drops, real deallocations) — see gen/c14_trace.py —
@@ -27,7 +31,7 @@ from ..tok import S
 
 PID = "C14"
 COQ_HEADER = ("From Coq Require Import NArith List Bool.\nImport ListNotations.\n"
-              "From SK Require Import lib.Tok model.C14_Model.\nLocal Open Scope N_scope.\n")
+              "From SK Require Import lib.Tok model.C14_Model model.C14_CrnModel.\nLocal Open Scope N_scope.\n")
 SHARD = 40
 IMPL_TIMEOUT = 1500
 COQ_TIMEOUT = 900
@@ -291,8 +295,64 @@ def _impl_runtime(case):
             zlib.crc32(base.encode()) % 1000003]
 
 
+# ---- SynCRN.build: serial vs parallel on full event records
+
+def _crn_exec(case):
+    import subprocess
+    import sys
+    r = subprocess.run([sys.executable, "-m", "harness.gen.c14_crn"], input=json.dumps(case), text=True,
+                       stdout=subprocess.PIPE, stderr=subprocess.PIPE, timeout=1200, cwd=os.path.dirname(WORK))
+    if r.returncode != 0:
+        raise RuntimeError("crn helper failed: " + r.stderr[-1500:])
+    return json.loads(r.stdout.strip().splitlines()[-1])
+
+
+def _crn_cache_path(case):
+    d = os.path.join(WORK, "C14-side", "crn-%d" % os.getppid())
+    os.makedirs(d, exist_ok=True)
+    return os.path.join(d, _case_hash(case) + ".json")
+
+
+def _crn_result(case, consume):
+    """impl() and oracle() of one case run in the same worker one after the other: the second caller re-uses the first
+    caller's execution (both only read what the implementation did); a lone caller executes itself."""
+    p = _crn_cache_path(case)
+    if os.path.exists(p):
+        with open(p) as f:
+            res = json.load(f)
+        if consume:
+            try:
+                os.remove(p)
+            except OSError:
+                pass
+        return res
+    res = _crn_exec(case)
+    if not consume:
+        with open(p + ".tmp", "w") as f:
+            json.dump(res, f)
+        os.replace(p + ".tmp", p)
+    return res
+
+
+def _crn_records(res):
+    rank = {k: i for i, k in enumerate(res["trace"]["keys"])}
+    out = []
+    for lab, (species, events) in res["runs"]:
+        out.append([[[n, rank[k]] for n, k in species],
+                    [[n, step, ri, int(name == "r%d" % ri), cid, app, int(bool(ok)), rs, ps]
+                     for n, step, ri, name, cid, app, ok, rs, ps in events]])
+    return out
+
+
+def _impl_crn(case):
+    res = _crn_result(case, consume=False)
+    _write_side(case, dict(trace=res["trace"]))
+    return [_crn_records(res), res["trace"]["steps"]]
+
+
 def impl(case):
-    return {"hist": _impl_hist, "batch": _impl_batch, "cluster": _impl_cluster, "runtime": _impl_runtime}[case["kind"]](case)
+    return {"hist": _impl_hist, "batch": _impl_batch, "cluster": _impl_cluster, "runtime": _impl_runtime,
+            "crn": _impl_crn}[case["kind"]](case)
 
 
 # ------------------------------------------------------------------ Gallina encoder
@@ -332,6 +392,27 @@ def coq_case(case):
             amap.setdefault(ka, len(amap))
             items.append(cpair(cN(c), cN(amap[ka])))
         return "run_cluster %s %s %s" % (clist(items), cnat(case.get("pre", 0)), clist([cnat(b) for b in case["sizes"]]))
+    if k == "crn":
+        side = _read_side(case)
+        if side is None:
+            return "L []"
+        t = side["trace"]
+        rank = {key: i for i, key in enumerate(t["keys"])}
+        rules = list(case["rules"])
+        cid = [rules.index(r) for r in rules]
+        if any(not same for _, _, _, same in t["table"]):
+            return "L []"                # a result that does not carry its task's (index, mixture): never equals the impl
+        cfg = "(CrnCfg %s %s %s %s %s %s %s)" % (
+            clist([cpair(cnat(a), cN(c)) for a, c in zip(t["arity"], cid)]), cnat(case["repeats"]),
+            cnat(case.get("max_components", 3)), cbool(case.get("use_frontier", True)),
+            cbool(case.get("dedup_across_rules", False)),
+            cN(50000 if case.get("max_mix") is None else case["max_mix"]),
+            cN(200000 if case.get("max_tasks") is None else case["max_tasks"]))
+        tb = clist([cpair(cpair(cN(cid[ti]), clist([cN(rank[x]) for x in tm])),
+                          clist([clist([cN(rank[x]) for x in m]) for m in mixes])) for ti, tm, mixes, _ in t["table"]])
+        seeds = clist([("None" if x is None else "(Some %s)" % cN(rank[x])) for x in t["seeds"]])
+        runs = clist([cpair(cbool(False), cnat(0))] + [cpair(cbool(True), cnat(w)) for w in case["workers"]])
+        return "run_crn %s %s %s %s" % (cfg, tb, seeds, runs)
     side = _read_side(case)
     if side is None:
         return "L []"
@@ -484,9 +565,34 @@ def _impl_runtime(case):      # noqa: F811  (the oracle runs the worker counts; 
     return [0]
 
 
+def _oracle_crn(case):
+    """parallel expansion == serial expansion, on everything a user can read off the network: species nodes, event nodes
+    with step / rule index / rule name / rule content / application index / label, reactant and product arcs; and every
+    event names the rule whose content it carries."""
+    res = _crn_result(case, consume=True)
+    rules = list(case["rules"])
+    base_lab, base = res["runs"][0]
+    fails = []
+    for lab, rec in res["runs"]:
+        for n, step, ri, name, cid, app, ok, rs, ps in rec[1]:
+            if not (0 <= ri < len(rules)) or name != "r%d" % ri or cid != rules.index(rules[ri]) or not ok:
+                fails.append(dict(clause="crn-event-rule", detail="%s: event node %d (step %d) says rule_index=%r rule_name=%r "
+                                  "but carries the content of rule %r (label/arcs consistent: %r)" % (lab, n, step, ri, name, cid, ok)))
+                break
+    for lab, rec in res["runs"][1:]:
+        if rec != base:
+            ev_b, ev_p = base[1], rec[1]
+            d = next((i for i, (a, b) in enumerate(zip(ev_b, ev_p)) if a != b), min(len(ev_b), len(ev_p)))
+            fails.append(dict(clause="workers-syncrn-events",
+                              detail="%s differs from %s: %d/%d species, %d/%d events; first differing event: serial %r, parallel %r"
+                              % (lab, base_lab, len(rec[0]), len(base[0]), len(ev_p), len(ev_b),
+                                 ev_b[d] if d < len(ev_b) else None, ev_p[d] if d < len(ev_p) else None)))
+    return fails[:3]
+
+
 def oracle(case):             # noqa: F811
     return {"hist": _oracle_hist, "batch": _oracle_batch, "cluster": _oracle_cluster,
-            "runtime": _oracle_runtime}[case["kind"]](case)
+            "runtime": _oracle_runtime, "crn": _oracle_crn}[case["kind"]](case)
 
 
 # ------------------------------------------------------------------ generators
@@ -677,10 +783,20 @@ def _runtime_cases(tier, rng, us, ec):
     for r in (us[i0:i0 + (8 if q else 40)]):
         alt = us[(us.index(r) + 1) % len(us)]
         data.append(dict(gt=r, m1=r, m2=alt if rng.random() < 0.5 else r))
-    cases.append(dict(kind="runtime", what="validate", data=data, jobs=[1, 2, 5, 8] if q else list(range(1, 9))))
+    # failing entries in the MIDDLE of the list: a mapped reaction that does not parse, an empty one, a ground truth
+    # RDKit refuses (each is answered False by the serial code; every worker count must put the False at the same place)
+    mid = len(data) // 2
+    data[mid]["m1"] = "not_a_smiles>>C"
+    data[mid - 1]["m2"] = ""
+    data[mid + 1]["gt"] = "C(C)(C)(C)(C)C>>CC"
+    cases.append(dict(kind="runtime", what="validate", data=data, jobs=[1, 2, 3, 5, 8] if q else list(range(1, 9))))
     bd = [dict(reactions=r, n=i) for i, r in enumerate(ec[:(20 if q else 150)])]
     for i in range(0, len(bd), 4):                              # unbalance every fourth reaction
         bd[i]["reactions"] = bd[i]["reactions"].split(">>")[0] + ">>" + bd[(i + 1) % len(bd)]["reactions"].split(">>")[1]
+    mid = len(bd) // 2 + 1                                      # malformed / unparsable entries in the middle
+    bd[mid]["reactions"] = "not_a_smiles>>C"
+    bd[mid + 2]["reactions"] = "C(C)(C)(C)(C)C>>CC"
+    bd[mid + 3]["reactions"] = ">>"
     cases.append(dict(kind="runtime", what="balance", data=bd, jobs=[1, 2, 3, 8] if q else list(range(1, 9))))
     cases.append(dict(kind="runtime", what="syncrn",
                       rules=["[C:1][OH:2]>>[C:1]=[O:2]" if False else "[CH2:1][OH:2].[O:3]=[C:4][OH:5]>>[CH2:1][O:5][C:4]=[O:3].[OH2:2]",
@@ -688,6 +804,47 @@ def _runtime_cases(tier, rng, us, ec):
                       seeds=["CCO", "CC(=O)O", "OCCO", "NCC=O"][:(3 if q else 4)], repeats=2 if q else 3,
                       jobs=[[False, None], [True, 2], [True, 4]] if q else [[False, None]] + [[True, k] for k in (1, 2, 3, 4, 6, 8)]))
     return cases
+
+
+CRN_RULES = {
+    "R3": "[CH:1]=[O:2].[NH2:3].[CH3:4]>>[CH:1]([NH:3])[CH2:4].[OH2:2]",               # three components
+    "E": "[CH2:1][OH:2].[O:3]=[C:4][OH:5]>>[CH2:1][O:5][C:4]=[O:3].[OH2:2]",           # esterification
+    "I": "[CH:1]=[O:2].[NH2:3]>>[CH:1]=[N:3].[OH2:2]",                                 # imine formation
+    "D": "[CH3:1][CH2:2][OH:3]>>[CH2:1]=[CH2:2].[OH2:3]",                              # dehydration (one component)
+    "X": "[SH:1][CH3:2].[Cl:3][CH3:4]>>[CH3:2][S:1][CH3:4].[ClH:3]",                   # matches nothing in the seeds
+    "X1": "[SH:1][CH3:2]>>[S:1]=[CH2:2]",                                              # one component, matches nothing
+    "A": "[CH2:1][NH2:2].[O:3]=[C:4][OH:5]>>[CH2:1][NH:2][C:4]=[O:3].[OH2:5]",         # amide formation
+}
+CRN_SEEDS = ["CCO", "CC(=O)O", "OCCO", "NCC=O", "CC=O", "NCCO", "CCN", "OC(=O)CO"]
+CRN_FIXED = [
+    # (rules, max_components, repeats): rules that cannot produce a task BEFORE rules that fire
+    (["R3", "E", "I", "D"], 2, 2), (["E", "R3", "D", "I"], 2, 2), (["I", "E", "D"], 1, 2), (["X", "E", "X1", "D"], 1, 2),
+    (["R3", "X", "A", "E"], 2, 1), (["E", "I"], 3, 2), (["D", "E", "D", "E"], 2, 2), (["X", "X1", "I"], 2, 2),
+]
+
+
+def _gen_crn(rng, fixed=None):
+    if fixed is not None:
+        names, mc, rep = fixed
+        seeds = ["CCO", "CC(=O)O", "OCCO", "NCC=O"] + rng.sample(CRN_SEEDS[4:], rng.randint(0, 1))
+        rng.shuffle(seeds)
+        c = dict(max_components=mc, repeats=rep, use_frontier=True, dedup_across_rules=False, max_mix=None, max_tasks=None)
+    else:
+        names = [rng.choice(list(CRN_RULES)) for _ in range(rng.randint(2, 5))]
+        seeds = ["CCO", rng.choice(["CC(=O)O", "OC(=O)CO"]), rng.choice(["NCC=O", "NCCO", "CC=O"])] + rng.sample(CRN_SEEDS, rng.randint(0, 2))
+        seeds = list(dict.fromkeys(seeds))
+        rng.shuffle(seeds)
+        if "D" not in names and "E" not in names and "I" not in names:
+            names[rng.randrange(len(names))] = rng.choice(["D", "E", "I"])
+        c = dict(max_components=rng.choice([1, 2, 2, 2, 3]), repeats=rng.choice([1, 2, 2, 3]), use_frontier=rng.random() < 0.7,
+                 dedup_across_rules=rng.random() < 0.3, max_mix=rng.choice([None, None, 2, 5]),
+                 max_tasks=rng.choice([None, 7, 25]))
+        if c["repeats"] == 3 or c["max_components"] == 3:
+            c["max_tasks"] = c["max_tasks"] or 60
+        if rng.random() < 0.2:
+            seeds.insert(rng.randrange(len(seeds) + 1), "C(C)(C)(C)(C)C")       # a seed RDKit refuses
+    c.update(kind="crn", rules=[CRN_RULES[n] for n in names], rule_names=names, seeds=seeds, workers=[1, 2, 3])
+    return c
 
 
 def gen_cases(tier, rng):
@@ -721,7 +878,9 @@ def gen_cases(tier, rng):
         cases.append(_gen_cluster(rng, gs, rng.randrange(2, 10 if q else 24), allsizes=(k % 3 == 0)))
     # -- worker counts
     cases += _runtime_cases(tier, rng, us, ec)
-    return cases
+    # -- network expansion: serial vs parallel on full event records, rule lists with unusable rules first
+    crn = [_gen_crn(rng, f) for f in CRN_FIXED] + [_gen_crn(rng) for _ in range(8 if q else 80)]
+    return crn + cases
 
 
 # ------------------------------------------------------------------ evidence helpers
@@ -734,6 +893,10 @@ def nontrivial(case, obs):
         return len(case["subs"]) >= 2 and any(len(o) > 0 for call in obs[4] for o in call)
     if k == "cluster":
         return len(case["items"]) >= 3 and len(set(obs[0][1] + obs[0][0])) >= 2
+    if k == "crn":
+        # events of at least two different rules, or of a rule that is not the first one
+        ev = obs[0][0][1]
+        return len(ev) >= 2 and (len({e[2] for e in ev}) >= 2 or any(e[2] > 0 for e in ev))
     return True
 
 
@@ -767,6 +930,21 @@ def distribution(cases, obss):
             d["cluster_sizes_tried"] += len(c["sizes"])
         elif k == "runtime":
             d["runtime"][c["what"]] = len(c["jobs"])
+        elif k == "crn":
+            h = d.setdefault("crn", dict(cases=0, events=0, species=0, tasks=0, steps={}, rules_without_task_before_firing_rule=0,
+                                         max_components={}, parallel_runs=0, duplicate_rule_content=0))
+            ev = o[0][0][1]
+            h["cases"] += 1
+            h["events"] += len(ev)
+            h["species"] += len(o[0][0][0])
+            h["tasks"] += sum(o[1])
+            h["steps"][str(len(o[1]))] = h["steps"].get(str(len(o[1])), 0) + 1
+            h["parallel_runs"] += len(o[0]) - 1
+            mc = str(c.get("max_components", 3))
+            h["max_components"][mc] = h["max_components"].get(mc, 0) + 1
+            fired = {e[2] for e in ev}
+            h["rules_without_task_before_firing_rule"] += bool(fired) and any(i not in fired for i in range(max(fired)))
+            h["duplicate_rule_content"] += len(set(c["rules"])) < len(c["rules"])
     return d
 
 
